@@ -375,6 +375,83 @@ impl E {
         }
         out
     }
+    /// every user-supplied string of the tree (patterns, names, file names, literal text), in order
+    pub fn user_strings(&self) -> Vec<String> {
+        let mut out = vec![];
+        let fmt = |f: &Vec<FEl>, out: &mut Vec<String>| {
+            for el in f {
+                match el {
+                    FEl::Lit(s) => out.push(s.clone()),
+                    FEl::F(Fld::XAttr(s)) => out.push(s.clone()),
+                    _ => {}
+                }
+            }
+        };
+        for l in self.leaves() {
+            match l {
+                E::T(Tst::Name(s) | Tst::IName(s) | Tst::Path(s) | Tst::IPath(s) | Tst::Pool(s) | Tst::Xattr(s)) => out.push(s.clone()),
+                E::T(Tst::XattrMatch(a, b)) => {
+                    out.push(a.clone());
+                    out.push(b.clone());
+                }
+                E::A(Act::FPrint(s) | Act::FPrint0(s) | Act::Fls(s)) => out.push(s.clone()),
+                E::A(Act::Printf(f)) => fmt(f, &mut out),
+                E::A(Act::FPrintf(s, f)) => {
+                    out.push(s.clone());
+                    fmt(f, &mut out);
+                }
+                _ => {}
+            }
+        }
+        out
+    }
+    /// the same tree with every user-supplied string replaced by `f(string)`
+    pub fn map_strings(&self, f: &mut dyn FnMut(&str) -> String) -> E {
+        fn fmt(v: &[FEl], f: &mut dyn FnMut(&str) -> String) -> Vec<FEl> {
+            v.iter()
+                .map(|el| match el {
+                    FEl::Lit(s) => FEl::Lit(f(s)),
+                    FEl::F(Fld::XAttr(s)) => FEl::F(Fld::XAttr(f(s))),
+                    o => o.clone(),
+                })
+                .collect()
+        }
+        match self {
+            E::Not(a) => E::not(a.map_strings(f)),
+            E::Prec(a) => E::prec(a.map_strings(f)),
+            E::And(a, b) => {
+                let x = a.map_strings(f);
+                E::and(x, b.map_strings(f))
+            }
+            E::Or(a, b) => {
+                let x = a.map_strings(f);
+                E::or(x, b.map_strings(f))
+            }
+            E::List(a, b) => {
+                let x = a.map_strings(f);
+                E::list(x, b.map_strings(f))
+            }
+            E::T(Tst::Name(s)) => E::T(Tst::Name(f(s))),
+            E::T(Tst::IName(s)) => E::T(Tst::IName(f(s))),
+            E::T(Tst::Path(s)) => E::T(Tst::Path(f(s))),
+            E::T(Tst::IPath(s)) => E::T(Tst::IPath(f(s))),
+            E::T(Tst::Pool(s)) => E::T(Tst::Pool(f(s))),
+            E::T(Tst::Xattr(s)) => E::T(Tst::Xattr(f(s))),
+            E::T(Tst::XattrMatch(a, b)) => {
+                let x = f(a);
+                E::T(Tst::XattrMatch(x, f(b)))
+            }
+            E::A(Act::FPrint(s)) => E::A(Act::FPrint(f(s))),
+            E::A(Act::FPrint0(s)) => E::A(Act::FPrint0(f(s))),
+            E::A(Act::Fls(s)) => E::A(Act::Fls(f(s))),
+            E::A(Act::Printf(v)) => E::A(Act::Printf(fmt(v, f))),
+            E::A(Act::FPrintf(s, v)) => {
+                let x = f(s);
+                E::A(Act::FPrintf(x, fmt(v, f)))
+            }
+            o => o.clone(),
+        }
+    }
     pub fn has_action(&self) -> bool {
         self.leaves().iter().any(|l| matches!(l, E::A(_)))
     }
